@@ -46,6 +46,11 @@ pub struct PlaceCase {
     pub tramp: TrampSel,
     pub fake: FakeSel,
     pub callers: u8,
+    /// installations made on the same function through the same injector *before* the one under
+    /// test (kernel-placed trampolines): the one under test is then a re-fake, and the property
+    /// speaks about it because it is the fake that is installed
+    #[serde(default)]
+    pub prior: Vec<(Kind, u8)>,
 }
 
 #[derive(Serialize, Deserialize, Clone, Debug, Default)]
@@ -88,6 +93,8 @@ pub struct PlaceObs {
     pub panic: Option<String>,
     pub log: Vec<LogEv>,
     pub mmap_calls: u64,
+    #[serde(default)]
+    pub priors: u8,
     pub text: (u64, u64),
     pub straddles: bool,
 }
@@ -282,6 +289,22 @@ pub fn execute(c: &PlaceCase) -> PlaceObs {
         synth_fake = Some(fa);
         o.fake_addr = Some(fa as u64);
     }
+    // ---- earlier installations on the same function (default placement)
+    crate::worker::phase("prior");
+    let mut inj = ip::sut(InjectorPP::new);
+    for (kind, k) in c.prior.iter().take(4) {
+        let kinds = targets::legal_kinds(target.class);
+        let kind = if kinds.contains(kind) { *kind } else { kinds[*k as usize % kinds.len()] };
+        let r = std::panic::catch_unwind(std::panic::AssertUnwindSafe(|| ip::sut(|| targets::install(&mut inj, &target, kind, *k as usize))));
+        if r.is_err() {
+            // an earlier installation refused: not what this case is about
+            o.status = "discarded".into();
+            o.why = format!("an earlier installation was refused: {}", crate::worker::last_panic());
+            let _ = std::panic::catch_unwind(std::panic::AssertUnwindSafe(|| ip::sut(|| drop(inj))));
+            return o;
+        }
+        o.priors += 1;
+    }
     if let Some(tp) = tpage {
         ip::GRANT_PAGE.store(tp, SeqCst);
         ip::MODE.store(ip::MODE_GRANT_ONLY, SeqCst);
@@ -291,7 +314,7 @@ pub fn execute(c: &PlaceCase) -> PlaceObs {
     let orig_runs0 = targets::ORIG_RUNS.load(SeqCst);
     let res = std::panic::catch_unwind(std::panic::AssertUnwindSafe(|| {
         ip::sut(|| {
-            let mut inj = InjectorPP::new();
+            let mut inj = inj;
             let inst = match &c.fake {
                 FakeSel::Rust { kind, k } => {
                     let kinds = targets::legal_kinds(target.class);
@@ -389,6 +412,7 @@ pub fn execute(c: &PlaceCase) -> PlaceObs {
                                     static W: targets::Widget = targets::Widget { v: 7 };
                                     (std::mem::transmute::<usize, fn(&targets::Widget) -> u64>(addr))(&W)
                                 }
+                                Class::A => unreachable!("async targets are placed through RealAsync"),
                             }
                         })
                     })
@@ -452,7 +476,13 @@ pub fn strategy() -> impl Strategy<Value = PlaceCase> {
         5 => (d, 0u8..3).prop_map(|(d, api)| FakeSel::Synth { d, api }),
         2 => (prop_oneof![3 => Just(1u8), 1 => 0u8..5], any::<u64>(), 0u16..0xFF0, 0u8..3).prop_map(|(class, page, off, api)| FakeSel::SynthAbs { class, page: if class == 1 { page | 0x40000 } else { page }, off, api }),
     ];
-    (target, tramp, fake, prop_oneof![3 => Just(0u8), 1 => 1u8..=4]).prop_map(|(target, tramp, fake, callers)| {
+    let prior = prop_oneof![
+        5 => Just(vec![]),
+        2 => prop::collection::vec((kind_strategy(), 0u8..4), 1..=3),
+        // the pattern "X, something else, X again": a re-fake equal to an earlier one
+        1 => (kind_strategy(), kind_strategy(), 0u8..4).prop_map(|(a, b, k)| vec![(a, k), (b, k)]),
+    ];
+    (target, tramp, fake, prop_oneof![3 => Just(0u8), 1 => 1u8..=4], prior).prop_map(|(target, tramp, fake, callers, prior)| {
         // a synthetic fake needs a dictated trampoline; real targets keep the kernel's choice
         let (tramp, fake) = match (&target, tramp, fake) {
             (TargetSel::RealAsync(_), _, _) => (TrampSel::Kernel, FakeSel::Rust { kind: Kind::Raw, k: 0 }),
@@ -462,6 +492,12 @@ pub fn strategy() -> impl Strategy<Value = PlaceCase> {
             (_, TrampSel::Kernel, FakeSel::Synth { d, api }) => (TrampSel::Pages((d % 1000) as i32), FakeSel::Synth { d, api }),
             (_, t, f) => (t, f),
         };
-        PlaceCase { target, tramp, fake, callers }
+        // "X, other, X": make the installation under test repeat the first earlier one
+        let fake = match (&fake, prior.as_slice()) {
+            (FakeSel::Rust { .. }, [(a, k), _]) if !matches!(target, TargetSel::RealAsync(_)) => FakeSel::Rust { kind: *a, k: *k },
+            _ => fake,
+        };
+        let prior = if matches!(target, TargetSel::RealAsync(_)) { vec![] } else { prior };
+        PlaceCase { target, tramp, fake, callers, prior }
     })
 }
